@@ -416,12 +416,63 @@ theorem indexerL_emb (c : ECfg) (r : Obj) (vs : VL) : Emb emb (indexerL c Lim.of
   unfold indexerL Emb
   rw [withConv_off (by rw [measure_off]; exact measureEach_off _), indexerV_emb]
 
-theorem memberVL_emb (c : ECfg) (name : Name) (x : Value) : Emb id (memberVL c Lim.off name x) (Eval.memberV name x) := by
-  unfold memberVL
+/-- the element kinds that are neither a collection nor (in `Eval`) projected element by element -/
+theorem memberFlatL_emb (c : ECfg) (name : Name) (x : Value) : Emb id (memberFlatL c Lim.off name x) (Eval.memberV name x) := by
+  unfold memberFlatL
   cases Eval.memberV name x with
   | ok v => simp only [withConv, measure_off, ok_bind, pure_eq]; rfl
   | error e =>
     cases e <;> simp only [withConv, isResolution, measure_off, ok_bind, error_bind] <;> rfl
+
+theorem memberV_nested_emb (c : ECfg) (name : Name) (l : VL)
+    (ih : Emb embS (memberVLs c Lim.off name l) (Eval.memberVL name l)) :
+    Emb id (do
+        let s ← memberVLs c Lim.off name l
+        let v ← toVL (ObjL.lazy s.1 s.2)
+        EvalLimits.measure Lim.off (sizeofV c v)
+        pure v)
+      (do let s ← Eval.memberVL name l; Eval.toV (.lazy s.1 s.2)) := by
+  refine Emb.bind ih (fun s => ?_)
+  have h := toVL_emb (.lazy s.1 s.2)
+  unfold Emb at h ⊢
+  show (toVL (ObjL.lazy s.1 (embT s.2)) >>= fun v => (do EvalLimits.measure Lim.off (sizeofV c v); pure v)) = _
+  have h' : toVL (ObjL.lazy s.1 (embT s.2)) = embR id (Eval.toV (.lazy s.1 s.2)) := h
+  rw [h']
+  cases Eval.toV (.lazy s.1 s.2) with
+  | ok v => simp only [embR, ok_bind, measure_off]; rfl
+  | error e => rfl
+
+mutual
+theorem memberVL_emb (c : ECfg) (name : Name) : ∀ x : Value, Emb id (memberVL c Lim.off name x) (Eval.memberV name x)
+  | .tuple l => by
+    rw [memberVL, Eval.memberV]
+    simp only [measure_off, limitLen_off, ok_bind]
+    exact memberV_nested_emb c name l (memberVLs_emb c name l)
+  | .list l => by
+    rw [memberVL, Eval.memberV]
+    simp only [measure_off, limitLen_off, ok_bind]
+    exact memberV_nested_emb c name l (memberVLs_emb c name l)
+  | .iter l => by
+    rw [memberVL, Eval.memberV]
+    simp only [measure_off, limitLazy_off, ok_bind]
+    exact memberV_nested_emb c name l (memberVLs_emb c name l)
+  | .null => by rw [memberVL]; exact memberFlatL_emb c name _
+  | .bool _ => by rw [memberVL]; exact memberFlatL_emb c name _
+  | .int _ => by rw [memberVL]; exact memberFlatL_emb c name _
+  | .flt _ => by rw [memberVL]; exact memberFlatL_emb c name _
+  | .str _ => by rw [memberVL]; exact memberFlatL_emb c name _
+  | .dict _ => by rw [memberVL]; exact memberFlatL_emb c name _
+  | .set _ => by rw [memberVL]; exact memberFlatL_emb c name _
+  | .host _ => by rw [memberVL]; exact memberFlatL_emb c name _
+theorem memberVLs_emb (c : ECfg) (name : Name) : ∀ l : VL, Emb embS (memberVLs c Lim.off name l) (Eval.memberVL name l)
+  | [] => by rw [memberVLs, Eval.memberVL]; rfl
+  | x :: xs => by
+    rw [memberVLs, Eval.memberVL]
+    refine Emb.bind (capture_emb (memberVL_emb c name x)) (fun r => ?_)
+    cases r with
+    | error er => exact Emb.pure rfl
+    | ok v => exact Emb.bind (memberVLs_emb c name xs) (fun s => Emb.pure rfl)
+end
 
 theorem memberOfL_emb (c : ECfg) (r : Obj) (name : Name) : Emb emb (memberOfL c Lim.off (emb r) name) (Eval.memberOf r name) := by
   have iter : ∀ r : Obj,
@@ -463,7 +514,7 @@ theorem memberOfL_emb (c : ECfg) (r : Obj) (name : Name) : Emb emb (memberOfL c 
     | str s => exact iter (.val (.str s))
     | tuple l => exact iter (.val (.tuple l))
     | list l => exact iter (.val (.list l))
-    | set l => exact iter (.val (.set l))
+    | set l => rfl
     | iter l => exact iter (.val (.iter l))
     | host i => exact iter (.val (.host i))
   | lazy xs e => exact iter (.lazy xs e)
